@@ -208,6 +208,38 @@ def finish_case(rng, decls, node, vrel, family, n_points=3, margin=1e-2):
     return {"decls": decls, "node": node, "V": V, "vrel": vrel, "family": family, "points": pts}
 
 
+DAG_FORMS = ["t*t+t", "sin(t)/(t*t+1.5)", "u*u-u/(t*t+2)", "exp(-t*t)*t"]
+
+
+def dag_variant(node, form):
+    """a recipe in which the sub-recipe `node` occurs several times; built with Builder(share=True) every occurrence is the
+    same object, i.e. the expression is a DAG (user code with a named intermediate `t`)"""
+    t = node
+    tt = ["bin", "*", t, t]
+    if form == 0:
+        return ["bin", "+", tt, t]
+    if form == 1:
+        return ["bin", "/", ["fn", "sin", t], ["bin", "+", tt, ["raw", 1.5, "float"]]]
+    if form == 2:
+        u = ["bin", "+", t, ["raw", 1.0, "float"]]
+        return ["bin", "-", ["bin", "*", u, u], ["bin", "/", u, ["bin", "+", tt, ["raw", 2.0, "float"]]]]
+    return ["bin", "*", ["fn", "exp", ["neg", tt]], t]
+
+
+def shared_case(rng, case, form=None):
+    """the DAG variant of a finished case (same declarations and V relation); None when no regular point is found"""
+    form = rng.randrange(len(DAG_FORMS)) if form is None else form
+    try:
+        c = finish_case(rng, case["decls"], dag_variant(case["node"], form), case["vrel"], case["family"], len(case["points"]))
+    except (R.ShapeError, R.OutOfModel):
+        return None
+    if c is None:
+        return None
+    c["share"] = True
+    c["dag_form"] = DAG_FORMS[form]
+    return c
+
+
 def directed_cases(rng, mine, vrels=VRELS, n_points=3):
     i = 0
     for fam, node in directed_families():
